@@ -18,7 +18,7 @@ from gym_gridverse.utils.fast_copy import fast_copy
 from .. import dyn
 from .. import reps as P
 from ..desc import HIDDEN, NONE, mk, mkobs, mkstate, sdesc, tup
-from ..pool import pmap
+from ..pool import pmap, run_fresh
 
 def _type_index():
     # the type index is the position in the library's registration order (a new registered type may legitimately
@@ -139,6 +139,15 @@ def judge_space(kind, shape, types, colours, repname, devs):
                 return n, 'a copy of a member does not equal / hash like the member', m
             if image(rep.convert(cp)) != img:
                 return n, 'a copy of a member has a different representation', m
+        if n % 5 == 0:
+            # the same cells held in tuple rows (Grid(list(zip(*columns))) builds such a grid): equal to the list-built member,
+            # same hash, same representation
+            from gym_gridverse.grid import Grid as _Grid
+            twin = type(obj)(_Grid([tuple(r) for r in obj.grid.objects]), fast_copy(obj.agent))
+            if not (twin == obj) or not (obj == twin):
+                return n, 'a member whose grid rows are tuples is not == to the member with the same cells in list rows (their representations are identical)', m
+            if hash(twin) != hash(obj) or image(rep.convert(twin)) != img:
+                return n, 'a member whose grid rows are tuples hashes / converts differently from the equal list-built member', m
         buckets[img] = ek
         eqs[ek] = img
         if len(retained) < 64:
@@ -184,7 +193,11 @@ def judge_registry_reads():
     reads = [('names()', lambda: grid_object_registry.names()), ('names() again', lambda: grid_object_registry.names()),
              ('from_name', lambda: [grid_object_registry.from_name(nm) for nm in before_idx]),
              ('iteration', lambda: [t for t in grid_object_registry]), ('sorted(registry)', lambda: sorted(grid_object_registry, key=lambda t: t.__name__)),
-             ('len / membership', lambda: (len(grid_object_registry), list(grid_object_registry)[0] in grid_object_registry))]
+             ('len / membership', lambda: (len(grid_object_registry), list(grid_object_registry)[0] in grid_object_registry)),
+             # a plugin that registers its types again every time it is loaded (the registry is a list: a second entry is
+             # redundant, the class keeps its first index)
+             ('registering a user-defined type again', lambda: grid_object_registry.register(P.TYPES['VerifPlain3'])),
+             ('registering a library type again', lambda: grid_object_registry.register(P.TYPES['Key']))]
     for what, read in reads:
         read()
         after_idx = {t.__name__: t.type_index() for t in list(grid_object_registry)}
@@ -255,7 +268,7 @@ def spaces(tier):
 
 def run(rep, tier, seed):
     # first, before anything else has run in this process: reads of the registry
-    rn, rm = judge_registry_reads()
+    rn, rm = run_fresh(lambda _: judge_registry_reads(), None)  # in a child: the re-registrations stay out of this process
     if rm:
         rep.violation({'kind': 'registry_reads', 'sig': {'part': 'registry_reads'}}, rm)
     rep.part('registry_reads', conversions=rn)
